@@ -16,11 +16,12 @@ def main():
     p = os.path.join(HOME, "mc", "not_applicable.json")
     if os.path.exists(p):
         na_reasons = json.load(open(p))
+    ready = set(open(os.path.join(HOME, "mc", "ready.txt")).read().split())
     for pid in ids:
         level, tech, text = REG[pid]
         mod = os.path.join(HOME, "mc", "checks", pid.lower() + ".py")
-        if pid in na_reasons or not os.path.exists(mod):
-            na.append({"property_id": pid, "reason": na_reasons.get(pid, "check not built yet (see DESIGN.md section 4 for the plan)")})
+        if pid in na_reasons or not os.path.exists(mod) or pid not in ready:
+            na.append({"property_id": pid, "reason": na_reasons.get(pid, "check still under construction / not yet validated on the unchanged tree (plan: DESIGN.md section 4)")})
             continue
         checks.append({
             "property_id": pid,
